@@ -16,30 +16,52 @@ open BM
 /-- msb0: the groups, left to right, are the value. -/
 theorem groupsOf_flatten_msb0 (bpg : Nat) (data : Bits) (h : bpg ≠ 0) :
     (groupsOf false bpg data).flatten = data := by
-  sorry
+  have := cut_flatten false bpg h data
+  simpa only [groupsOf, Bool.false_eq_true, if_false] using this
 
 /-- lsb0: the groups are listed least-significant first; read in reverse they are the value. -/
 theorem groupsOf_flatten_lsb0 (bpg : Nat) (data : Bits) (h : bpg ≠ 0) :
     (groupsOf true bpg data).reverse.flatten = data := by
-  sorry
+  have := cut_flatten true bpg h data
+  simpa only [groupsOf, if_true] using this
 
 /-- Every group is non-empty and has at most `bpg` bits; every group but the last listed has exactly `bpg`. -/
 theorem groupsOf_sizes (lsb0 : Bool) (bpg : Nat) (data : Bits) (h : bpg ≠ 0) :
     (∀ g ∈ groupsOf lsb0 bpg data, 0 < g.length ∧ g.length ≤ bpg) ∧
     (∀ g ∈ (groupsOf lsb0 bpg data).dropLast, g.length = bpg) := by
-  sorry
+  exact cut_sizes lsb0 bpg h data
 
 /-! ### data and trailing bits -/
 
 /-- The value is the printed data followed (msb0) / preceded (lsb0) by the trailing bits. -/
 theorem pp_data_trailing (lsb0 : Bool) (l : Bits) (t : Nat) (h : t ≤ l.length) :
     (if lsb0 then ppTrailing lsb0 l t ++ ppData lsb0 l t else ppData lsb0 l t ++ ppTrailing lsb0 l t) = l := by
-  sorry
+  have _ := h
+  unfold ppData ppTrailing
+  cases lsb0 with
+  | false => simp only [Bool.false_eq_true, if_false]; exact List.take_append_drop _ _
+  | true => simp only [if_true]; exact List.take_append_drop _ _
 
 /-- With an explicit group size the data is a whole number of groups, and fewer than one group is left over. -/
 theorem pp_data_whole_groups (lsb0 : Bool) (l : Bits) (bpg : Nat) (h : bpg ≠ 0) :
     (ppData lsb0 l (l.length % bpg)).length % bpg = 0 ∧ (ppTrailing lsb0 l (l.length % bpg)).length < bpg := by
-  sorry
+  have hpos : 0 < bpg := Nat.pos_of_ne_zero h
+  have hlt : l.length % bpg < bpg := Nat.mod_lt _ hpos
+  have hle : l.length % bpg ≤ l.length := Nat.mod_le _ _
+  have hdm : bpg * (l.length / bpg) + l.length % bpg = l.length := Nat.div_add_mod _ _
+  have hsub : l.length - l.length % bpg = bpg * (l.length / bpg) := by omega
+  unfold ppData ppTrailing
+  cases lsb0 with
+  | false =>
+    simp only [Bool.false_eq_true, if_false, List.length_take, List.length_drop]
+    refine ⟨?_, by omega⟩
+    rw [Nat.min_eq_left (Nat.sub_le _ _), hsub]
+    exact Nat.mul_mod_right _ _
+  | true =>
+    simp only [if_true, List.length_take, List.length_drop]
+    refine ⟨?_, by omega⟩
+    rw [hsub]
+    exact Nat.mul_mod_right _ _
 
 /-- The trailing bits are reported exactly when there are some, as the `str` of those bits … -/
 theorem pp_trailing (a : PPArgs) (lay : Layout) (bpg : Nat) (hasLen : Bool)
@@ -47,7 +69,7 @@ theorem pp_trailing (a : PPArgs) (lay : Layout) (bpg : Nat) (hasLen : Bool)
     lay.trailing =
       (if trailingLen a.l.length bpg hasLen = 0 then none
        else some (strFormAlg a.lsb0 (ppTrailing a.lsb0 a.l (trailingLen a.l.length bpg hasLen)))) := by
-  sorry
+  exact (pp_unfold a lay bpg hasLen ht h).2
 
 /-- … which (msb0, and at most `4 * MAX_CHARS` of them — always so for group sizes up to 1000) read back as those bits. -/
 theorem pp_trailing_faithful (a : PPArgs) (lay : Layout) (bpg : Nat) (hasLen : Bool) (s : Str)
@@ -66,13 +88,42 @@ theorem pp_group_atomic (a : PPArgs) (lay : Layout) (bpg : Nat) (hasLen : Bool)
     lay.lines.flatMap (·.groups1) = (groupsOf a.lsb0 bpg data).map (digits a.t1.fmt) ∧
     ∀ t2, a.t2 = some t2 →
       lay.lines.flatMap (fun ln => ln.groups2.getD []) = (groupsOf a.lsb0 bpg data).map (digits t2.fmt) := by
-  sorry
+  intro data
+  obtain ⟨m, _, hk, ⟨h1, _⟩, h2⟩ := pp_cols a lay bpg hasLen ht h
+  obtain ⟨k, hk0, rfl⟩ := hk hb
+  refine ⟨?_, ?_⟩
+  · rw [List.flatMap_def, h1]
+    exact ppGroups_atomic a.lsb0 bpg k a.t1.fmt data hb hk0
+  · intro t2 ht2
+    rw [List.flatMap_def, (h2 t2 ht2).1]
+    exact ppGroups_atomic a.lsb0 bpg k t2.fmt data hb hk0
 
 /-- Both columns of a line show the same number of groups; a line is never empty. -/
 theorem pp_columns_aligned (a : PPArgs) (lay : Layout) (h : pp a = .ok lay) :
     ∀ ln ∈ lay.lines, ln.groups1 ≠ [] ∧
       (match ln.groups2 with | none => a.t2 = none | some g2 => a.t2.isSome ∧ g2.length = ln.groups1.length) := by
-  sorry
+  cases ht : processTokens a.t1 a.t2 with
+  | error e => unfold pp at h; rw [ht] at h; exact absurd h (by simp)
+  | ok r =>
+    obtain ⟨bpg, hasLen⟩ := r
+    obtain ⟨m, hm, _, hrel⟩ := pp_rel a lay bpg hasLen ht h
+    intro ln hln
+    obtain ⟨ch, hch, hr⟩ := ppForall_mem _ _ _ hrel ln hln
+    have hne : ch ≠ [] := cut_mem_ne_nil _ m hm _ ch hch
+    refine ⟨by rw [hr.1.1]; exact ppGroups_ne_nil _ _ _ ch hne, ?_⟩
+    have h2 := hr.2
+    cases hf2 : a.t2 with
+    | none =>
+      have : (cfgOf a bpg).f2 = none := by simp [cfgOf, hf2]
+      rw [this] at h2
+      simp only at h2
+      rw [h2]
+    | some t2 =>
+      have : (cfgOf a bpg).f2 = some t2.fmt := by simp [cfgOf, hf2]
+      rw [this] at h2
+      simp only at h2
+      rw [h2.1, hr.1.1]
+      exact ⟨rfl, ppGroups_length _ _ _ _ ch⟩
 
 /-! ### `pp_digits_complete`: in order, exactly the digits of the data -/
 
@@ -83,7 +134,17 @@ theorem pp_digits_complete_msb0 (a : PPArgs) (lay : Layout) (bpg : Nat) (hasLen 
     (lay.lines.flatMap (·.groups1)).flatten = digits a.t1.fmt data ∧
     ∀ t2, a.t2 = some t2 →
       (lay.lines.flatMap (fun ln => ln.groups2.getD [])).flatten = digits t2.fmt data := by
-  sorry
+  intro data
+  obtain ⟨m, hm0, _, ⟨h1, ok1⟩, h2⟩ := pp_cols a lay bpg hasLen ht h
+  rw [hm] at h1 ok1 h2
+  refine ⟨?_, ?_⟩
+  · rw [List.flatMap_def, h1]
+    have := ppGroups_digits false bpg m a.t1.fmt data hm0 ok1
+    simpa only [Bool.false_eq_true, if_false] using this
+  · intro t2 ht2
+    rw [List.flatMap_def, (h2 t2 ht2).1]
+    have := ppGroups_digits false bpg m t2.fmt data hm0 (h2 t2 ht2).2
+    simpa only [Bool.false_eq_true, if_false] using this
 
 /-- lsb0: lines and groups are listed least-significant first; read in reverse they are the digits of the data. -/
 theorem pp_digits_complete_lsb0 (a : PPArgs) (lay : Layout) (bpg : Nat) (hasLen : Bool)
@@ -92,14 +153,27 @@ theorem pp_digits_complete_lsb0 (a : PPArgs) (lay : Layout) (bpg : Nat) (hasLen 
     (lay.lines.flatMap (·.groups1)).reverse.flatten = digits a.t1.fmt data ∧
     ∀ t2, a.t2 = some t2 →
       (lay.lines.flatMap (fun ln => ln.groups2.getD [])).reverse.flatten = digits t2.fmt data := by
-  sorry
+  intro data
+  obtain ⟨m, hm0, _, ⟨h1, ok1⟩, h2⟩ := pp_cols a lay bpg hasLen ht h
+  rw [hm] at h1 ok1 h2
+  refine ⟨?_, ?_⟩
+  · rw [List.flatMap_def, h1]
+    have := ppGroups_digits true bpg m a.t1.fmt data hm0 ok1
+    simpa only [if_true] using this
+  · intro t2 ht2
+    rw [List.flatMap_def, (h2 t2 ht2).1]
+    have := ppGroups_digits true bpg m t2.fmt data hm0 (h2 t2 ht2).2
+    simpa only [if_true] using this
 
 /-- The digits shown are a whole number of characters: pp succeeds only when every format can represent the data. -/
 theorem pp_ok_representable (a : PPArgs) (lay : Layout) (bpg : Nat) (hasLen : Bool)
     (ht : processTokens a.t1 a.t2 = .ok (bpg, hasLen)) (h : pp a = .ok lay) :
     let data := ppData a.lsb0 a.l (trailingLen a.l.length bpg hasLen)
     data.length % a.t1.fmt.bpc = 0 ∧ ∀ t2, a.t2 = some t2 → data.length % t2.fmt.bpc = 0 := by
-  sorry
+  intro data
+  obtain ⟨m, hm0, _, ⟨_, ok1⟩, h2⟩ := pp_cols a lay bpg hasLen ht h
+  exact ⟨ppGroups_representable a.lsb0 bpg m a.t1.fmt data hm0 ok1,
+    fun t2 ht2 => ppGroups_representable a.lsb0 bpg m t2.fmt data hm0 (h2 t2 ht2).2⟩
 
 /-! ### non-vacuity -/
 
